@@ -74,3 +74,19 @@ def _c18_retries_bool_int(f: Failure) -> bool:
         return False
     # value table order for retries: #0 -> 0, #1 -> 1, #2 -> 5, #3 -> False
     return sorted([o.get("i"), o.get("j")]) == [0, 3]
+
+
+# ---------------------------------------------------------------------------------- C12 -------
+@finding("C12", "chunked-mixed-parsers")
+def _c12_mixed(f: Failure) -> bool:
+    """On a chunked response, read()/read1()/readinto() consume the body through http.client's chunk reader while
+    stream()/read_chunked()/iteration parse chunks themselves from the raw socket file: once both have been used
+    the second parser starts in the middle of the other's state (InvalidChunkLength, a read timeout, or wrong bytes)."""
+    o = f["observed"] or {}
+    if not (o.get("mixed_families") is True and o.get("framing") == "chunked"):
+        return False
+    if f["kind"] == "bytes-differ":
+        return True
+    if f["kind"] == "exception-on-wellformed-response":
+        return o.get("exc") in ("ProtocolError", "ReadTimeoutError", "InvalidChunkLength", "AttributeError") or (o.get("exc") == "DecodeError" and o.get("coding") != "identity")
+    return f["kind"] in ("short-read-before-end", "empty-piece-from-stream")
